@@ -58,7 +58,7 @@ ASSUMPTIONS = [
     "task bodies are atomic in the task-atomic pool model and pre-empted only at Python line events of groupby_lib frames in the pre-emptive model (one fault-free run in three); compiled kernels and pandas / NumPy calls are never split; in the atomic model a write by a task is detected after the task (shared-write monitor), in the pre-emptive model through the fingerprints after the call",
     "statement-level faults are line-granular (DESIGN 9.4)",
 ]
-EXPECTED_PROBES = ["zero_copy_container", "readonly_input", "scribble", "scribbled_raw_ndarray", "scribbled_pandas_setter", "repeat_after_scribble", "failing_step_checked", "pools_ge2"]
+EXPECTED_PROBES = ["zero_copy_container", "readonly_input", "scribble", "scribbled_raw_ndarray", "scribbled_pandas_setter", "repeat_after_scribble", "failing_step_checked", "pools_ge2", "stmt_fault_armed", "preemptive_pools", "tasks_interleaved_inside_bodies"]
 
 
 def classes(tier):
